@@ -509,6 +509,69 @@ func witnessIndexFlushFault(c *core.Ctx, db string, step int) error {
 	return r.err
 }
 
+// witnessSeqCacheEvict: the LRU sequence cache drops the metric before every new series, with the metric's
+// postings in every combination of tiers: mutable only; mutable + immutable; kv family + immutable (dictionary
+// still frozen after a faulted round) + mutable; kv family only; after a crash. Each time the miss branch of
+// createSeriesID must continue after the largest id in ANY tier; all old tag sets are asked for again.
+func witnessSeqCacheEvict(c *core.Ctx, db string) error {
+	r, err := newRunner(c, db, 2, 0)
+	if err != nil {
+		return err
+	}
+	defer r.close()
+	r.o.tag = "seq-evict-"
+	mid, _ := r.metric(0, 0)
+	m := int(mid)
+	mid2, _ := r.metric(0, 1)
+	m2 := int(mid2)
+	r.mprepare()
+	r.mflush()
+	ask := func(vs ...int) {
+		for _, v := range vs {
+			r.series(0, 0, 0, m, []kv{{0, v}})
+		}
+	}
+	r.ievict(0, m) // nothing cached yet
+	ask(0, 1)
+	r.series(0, 0, 1, m2, []kv{{0, 0}}) // another metric of the shard keeps its entry
+	r.series(1, 0, 0, m, []kv{{0, 7}})  // the other shard has its own cache
+	r.ievict(0, m)
+	ask(2) // mutable only
+	r.iprepare(0)
+	ask(3)
+	r.ievict(0, m)
+	ask(4, 0, 1, 2, 3) // mutable + immutable
+	r.iflushfault(0, 1) // postings committed, forward step fails: inverted and dictionary stay frozen
+	r.ievict(0, m)
+	ask(5) // kv family + mutable
+	r.iprepare(0)
+	r.ievict(0, m)
+	ask(6)
+	r.iflush(0)
+	r.ievict(0, m)
+	r.ievict(0, m) // second time: absent
+	ask(7, 0, 1, 2, 3, 4, 5, 6) // kv family (+ what the retry round left)
+	r.series(0, 0, 1, m2, []kv{{0, 1}})
+	r.series(1, 0, 0, m, []kv{{0, 8}})
+	r.mseries(0, m)
+	r.iprepare(0)
+	r.iflush(0)
+	r.crash()
+	if r.err != nil {
+		return r.err
+	}
+	r.ievict(0, m) // a recovered node starts with an empty cache
+	ask(8)
+	r.ievict(0, m)
+	ask(9, 0, 1, 2, 3, 4, 5, 6, 7, 8)
+	r.mseries(0, m)
+	r.mseries(0, m2)
+	r.mseries(1, m)
+	c.Branch("witness-seq-cache-evict")
+	c.NonTrivial()
+	return r.err
+}
+
 // witnessNameLimits: max-namespaces = 1, max-metrics = 2 (the tests are `limit < ids handed out`, so two
 // namespaces and three metric names are admitted). Refused names are asked for again — before and after a
 // metadata flush (the refused createFn left an empty bucket map in the mutable table), after a failed flush,
